@@ -1292,25 +1292,48 @@ static void checkConditional(Rng& r, Ctx& c, const MeshCase& mc, const std::vect
                 fmt("cg=%.10g ref=%.10g chol=%.10g ; value predicted with log|Q+A'A/s2| := 0 is %.10g ; sdMC(logdet)=%.3g N=%d nd=%d", ll0, (double)llRef, ll1, llPred0, sdMC, N, nd));
     }
   }
+}
 
-  // LAST statement of the case on purpose (it aborts in this build: Eigen assertion in ProjMultiMatrix::_addMesh2point):
-  // krigingSPDENew on a target Db that holds coordinates only. ProjMultiMatrix::createFromDbAndMeshes(dbout) sizes itself on the
-  // number of Z variables of dbout (0 here), so the output projection is empty and mesh2point() multiplies a 0-column matrix.
-  if (newApi && !AVOID_KRIGNEW_TARGET_WITHOUT_Z && r.coin(0.2))
-  {
-    VectorMeshes meshes = {mc.mesh.get()};
-    std::unique_ptr<Db> dbfresh = makeDb(ndim, tpts, nullptr);
-    c.probe("krignew.target-without-Z");
-    VectorDouble est = krigingSPDENew(dbin.get(), dbfresh.get(), model.get(), meshes, 1, false);
-    bool ok = (int)est.size() == nt;
-    double e = 0;
-    if (ok) for (int i = 0; i < nt; i++) e = std::max(e, std::fabs((double)((LD)est[i] - estRef[i])));
-    c.check("krignew-target-without-Z", "C15:krigingSPDENew:target-db-without-Z-variable", ok && e <= estTolChol, e, estTolChol, fmt("size=%d nt=%d", (int)est.size(), nt));
-  }
+// Dedicated scenario (4 % of the cases, nothing else in the case because it aborts in this build: Eigen assertion in
+// ProjMultiMatrix::_addMesh2point <- krigingSPDENew): krigingSPDENew on a target Db that holds coordinates only.
+// ProjMultiMatrix::createFromDbAndMeshes(dbout) sizes itself on the number of Z variables of dbout (0 here), so the output
+// projection is empty and mesh2point() multiplies a matrix without columns. Oracle: same estimates as on the same targets once
+// they carry a Z variable (the Cholesky mode of krigingSPDENew is validated against the dense reference in the main scenario).
+static void scenarioTargetWithoutZ(Rng& r, Ctx& c)
+{
+  int ndim = r.irange(1, 3);
+  defineDefaultSpace(ESpaceType::RN, ndim);
+  c.setSig(fmt("krigingSPDENew-target-without-Z:ndim=%d", ndim));
+  VectorInt nx(ndim);
+  VectorDouble dx(ndim), x0(ndim);
+  for (int d = 0; d < ndim; d++) { nx[d] = r.irange(3, 6); dx[d] = r.uni(0.5, 2.); x0[d] = r.uni(-5, 5); }
+  std::unique_ptr<MeshETurbo> mesh(MeshETurbo::create(nx, dx, x0));
+  SpaceRN space(ndim);
+  std::unique_ptr<Model> model(Model::createFromParam(ECov::MATERN, r.uni(1., 4.), r.uni(0.5, 2.), ndim == 2 ? 1. : 0.5, VectorDouble(), VectorDouble(),
+                                                      VectorDouble(), &space, true));
+  auto pt = [&]() { std::vector<double> p(ndim); for (int d = 0; d < ndim; d++) p[d] = x0[d] + r.uni(0.05, 0.95) * dx[d] * (nx[d] - 1); return p; };
+  int nd = r.irange(2, 8), nt = r.irange(1, 5);
+  std::vector<std::vector<double>> dp, tp;
+  std::vector<double> z(nd);
+  for (int i = 0; i < nd; i++) { dp.push_back(pt()); z[i] = r.normal(); }
+  for (int i = 0; i < nt; i++) tp.push_back(pt());
+  std::unique_ptr<Db> dbin = makeDb(ndim, dp, &z), withZ, noZ = makeDb(ndim, tp, nullptr);
+  std::vector<double> dummy(nt, 0.);
+  withZ = makeDb(ndim, tp, &dummy);
+  VectorMeshes meshes = {mesh.get()};
+  VectorDouble ref = krigingSPDENew(dbin.get(), withZ.get(), model.get(), meshes, 1, false);
+  if ((int)ref.size() != nt) { c.skip("target-without-Z:reference-run-failed"); return; }
+  c.probe("krignew.target-without-Z");
+  VectorDouble est = krigingSPDENew(dbin.get(), noZ.get(), model.get(), meshes, 1, false);
+  bool ok = (int)est.size() == nt;
+  double e = 0, sc = 0;
+  if (ok) for (int i = 0; i < nt; i++) { e = std::max(e, std::fabs(est[i] - ref[i])); sc = std::max(sc, std::fabs(ref[i])); }
+  c.check("krignew-target-without-Z", "C15:krigingSPDENew:target-db-without-Z-variable", ok && e <= 1e-9 * (1 + sc), e, 1e-9 * (1 + sc), fmt("size=%d nt=%d", (int)est.size(), nt));
 }
 
 static void run_case(Rng& r, Ctx& c)
 {
+  if (!AVOID_KRIGNEW_TARGET_WITHOUT_Z && r.coin(0.04)) { scenarioTargetWithoutZ(r, c); return; }
   // ---- 1. mesh, model -----------------------------------------------------------------------------
   int ndimPeek;
   {
@@ -1375,11 +1398,16 @@ static void run_case(Rng& r, Ctx& c)
     {
       std::vector<LD> sq(n);
       for (int i = 0; i < n; i++) sq[i] = std::sqrt((LD)tc[i]);
-      std::vector<LD> y = mulv(S, sq), m = mulv(S, sq, false, true);
+      // round-off scale: S_ij is a sum over elements of terms which may cancel (e.g. the diagonal edge of a right-angled cell), each
+      // bounded by sqrt(s^e_ii s^e_jj) (element matrices are PSD) => sum_e |s^e_ij| <= sqrt(S_ii S_jj) (Cauchy-Schwarz)
+      std::vector<double> sdiag(n, 0.);
+      for (size_t k = 0; k < S.v.size(); k++) if (S.r[k] == S.c[k]) sdiag[S.r[k]] += S.v[k];
+      std::vector<LD> y = mulv(S, sq), m(n, 0);
+      for (size_t k = 0; k < S.v.size(); k++) m[S.r[k]] += std::sqrt(std::fabs((LD)sdiag[S.r[k]] * (LD)sdiag[S.c[k]])) * sq[S.c[k]];
       std::vector<double> yd(n);
       std::vector<LD> zero(n, 0);
       for (int i = 0; i < n; i++) yd[i] = (double)y[i];
-      double q = ratioVec(yd, zero, m, 1024. * (nnzS + 2)); // element matrices go through (M'M)^-1: conditioning of slivers / anisotropy included in the constant
+      double q = ratioVec(yd, zero, m, 256. * (nnzS + 2));
       c.check("S-nullspace", "C15:shiftop:S-sqrtTildeC-not-zero:" + cls, q <= 1, q, 1);
       std::map<std::pair<int, int>, double> ent;
       std::vector<double> sd(n, 0.);
@@ -1569,6 +1597,40 @@ static void run_case(Rng& r, Ctx& c)
     qcs.evalInverse(constvect(b), x2);
     double q = residRatio(Q, x2, b, 64.0 * n);
     c.check("solve-residual-chol", "C15:PrecisionOpCs::evalInverse:residual:" + cls, q <= 1, q, 1);
+  }
+
+  // ---- 5a. PrecisionOpCs::evalSimulate = L^-T w (CholeskySparse::addSimulateToDest): x'Qx = w'w.
+  //      Backward error of the triangular solve: |w'w - x'Qx| <= c n eps |x|'|L||L'||x| <= c n^2 eps ||Q||_1 ||x||_2^2
+  {
+    std::vector<double> w = makeVec(0);
+    VectorDouble xs = qcs.evalSimulate(VD(w));
+    std::vector<LD> xl = toLD(SV(xs)), qx = mulv(Q, xl);
+    LD xqx = 0, ww = 0, xx = 0;
+    bool fin = (int)xs.size() == n;
+    for (int i = 0; i < n && fin; i++) { xqx += xl[i] * qx[i]; ww += (LD)w[i] * (LD)w[i]; xx += xl[i] * xl[i]; if (!std::isfinite(xs[i])) fin = false; }
+    std::vector<LD> colsum(n, 0);
+    LD q1 = 0;
+    for (size_t k = 0; k < Q.v.size(); k++) colsum[Q.c[k]] += std::fabs((LD)Q.v[k]);
+    for (LD v : colsum) q1 = std::max(q1, v);
+    double tol = (double)(64. * n * (double)n * EPS * q1 * xx);
+    c.check("simulate-cs-identity", "C15:PrecisionOpCs::evalSimulate:xQx-vs-ww:" + cls, fin && std::fabs((double)(xqx - ww)) <= tol, fin ? std::fabs((double)(xqx - ww)) : INFINITY, tol);
+  }
+  // ---- 5a'. the same geometry held by the other mesh class gives the same operator (turbo <-> standard copy)
+  if (mc.turboTwin)
+  {
+    PrecisionOpCs qtw(mc.turboTwin.get(), mo.cova, false);
+    if (c.truth("twin-Q", "C15:twin:Q-null:" + cls, qtw.getQ() != nullptr && qtw.getSize() == n))
+    {
+      Sp Qt = mirror(qtw.getQ());
+      std::vector<double> x = makeVec(0);
+      std::vector<LD> xl = toLD(x), y1 = mulv(Q, xl), y2 = mulv(Qt, xl), B = applyLPL(S, lam, mo.coef, xl, true);
+      std::vector<double> y2d(n);
+      for (int i = 0; i < n; i++) y2d[i] = (double)y2[i];
+      // the two meshes return coordinates through different arithmetic (grid index -> coordinate vs stored copy): identical numbers are
+      // expected, a round-off level difference amplified by the element conditioning is tolerated
+      double q = ratioVec(y2d, y1, B, CF * 1e4);
+      c.check("twin-Q", "C15:twin:Q(turbo)-vs-Q(standard-copy):" + cls, q <= 1, q, 1);
+    }
   }
 
   // ---- 5b. other matrix-free entry points ------------------------------------------------------------
